@@ -889,7 +889,7 @@ def flat_items(items):
             yield from flat_items(it.body)
 
 
-@rule("R-EXTENT", 25, "an array field is saved with the element count it was allocated with in every building constructor")
+@rule("R-EXTENT", 20, "an array field is saved with the element count it was allocated with in every building constructor")
 def r_extent(db, rep):
     pairs = [(w, r) for w, r in find_pairs(db) if not is_dispatcher(db, r)]
     cone = mirror_cone(db, pairs)
